@@ -5,11 +5,15 @@ use duckscript::types::runtime::Context;
 use serde_json::{json, Value};
 
 fn run1(base: &Context, line: &str) -> Result<(Context, Option<String>), String> {
-    match run_guarded(line, base.clone(), Some(quiet_env())) {
+    // the line, then a reading of the last error: an error result is "false" AND a reported error, a value is neither
+    match run_guarded(&format!("{}vh_e = get_last_error\n", line), base.clone(), Some(quiet_env())) {
         Err(p) => Err(format!("panic {}", p)),
         Ok(Err(e)) => Err(format!("run failed {}", e)),
         Ok(Ok(c)) => { let o = c.variables.get("o").cloned(); Ok((c, o)) }
     }
+}
+fn reported(c: &Context) -> bool {
+    c.variables.get("vh_e").map(|e| !e.is_empty()).unwrap_or(false)
 }
 pub fn unit(_args: &[String]) {
     let base = sdk_context();
@@ -18,11 +22,15 @@ pub fn unit(_args: &[String]) {
     println!("{}", json!({"unit": u, "mismatches": 0, "bad": []}));
 }
 fn check(exp: &Value, o: &Option<String>, c: &Context) -> Result<(), String> {
-    match exp["k"].as_str().unwrap() {
+    let k = exp["k"].as_str().unwrap();
+    if ["val", "num", "bool", "list", "nums"].contains(&k) && reported(c) {
+        return Err(format!("an error was reported ({:?}) where a value is specified (output {:?})", c.variables.get("vh_e"), o));
+    }
+    match k {
         "any" => Ok(()),
         "val" => { let v = uncps(&exp["v"]); if o.as_deref() == Some(v.as_str()) || (v.is_empty() && o.is_none()) { Ok(()) } else { Err(format!("output {:?} expected {:?}", o, v)) } }
         "none" => if o.is_none() { Ok(()) } else { Err(format!("output {:?} expected none", o)) },
-        "err" => if o.as_deref() == Some("false") { Ok(()) } else { Err(format!("output {:?} expected the error result", o)) },
+        "err" => if o.as_deref() == Some("false") && reported(c) { Ok(()) } else { Err(format!("output {:?}, error reported: {}; expected the error result", o, reported(c))) },
         "num" => if o.as_deref() == Some(exp["n"].to_string().as_str()) { Ok(()) } else { Err(format!("output {:?} expected {}", o, exp["n"])) },
         "bool" => if o.as_deref() == Some(exp["b"].to_string().as_str()) { Ok(()) } else { Err(format!("output {:?} expected {}", o, exp["b"])) },
         "list" => { let want: Vec<String> = exp["v"].as_array().unwrap().iter().map(uncps).collect();
@@ -70,6 +78,10 @@ pub fn replay(args: &[String]) {
         for c in rec["cmp"].as_array().unwrap() {
             let line = format!("o = {} {} {}\n", c["cmd"].as_str().unwrap(), dec(c["a"].as_i64().unwrap()), dec(c["b"].as_i64().unwrap()));
             one(&mut s, line, &c["exp"], json!({"cmd": c["cmd"], "a": c["a"], "b": c["b"]}));
+        }
+        for c in rec["badcmp"].as_array().unwrap() {
+            let line = format!("o = {} {} {}\n", c["cmd"].as_str().unwrap(), quote_arg(c["a"].as_str().unwrap()), quote_arg(c["b"].as_str().unwrap()));
+            one(&mut s, line, &json!({"k": "err"}), json!({"cmd": c["cmd"], "a": c["a"], "b": c["b"], "out_of_domain": true}));
         }
         for c in rec["calc"].as_array().unwrap() {
             let line = format!("o = calc {}\n", expr_text(&c["e"]));
